@@ -113,7 +113,9 @@ Build ==
 Plan ==
   /\ outcome.kind = "run" /\ frames # <<>> /\ Top.phase = "plan"
   /\ LET outs == OutEdges(Top.fn)
+         \* typed arguments that hold a value are taken as they are; since the repair of F17 named values too
          skipArgs == {v \in outs : v.k = "arg" /\ val[v] # 0}
+                     \cup (IF "F17" \in Bugs THEN {} ELSE {v \in outs : v.k = "val" /\ val[v] # 0})
          skipped == skipArgs \cup {v \in outs : v.k = "root"}
          T == {v \in outs : v.k # "root"} \ skipArgs
          am0 == {<<v, val[v]>> : v \in skipArgs}
